@@ -400,6 +400,72 @@ def formerly_fatal_case(rng, vias=("core",)):
     return c
 
 
+def sysconf_cases(rng, n):
+    """Through a System whose configuration matters: location cache TTL never (every request loads the location from its stored
+    documents, control properties included) and a built-in cron with room for three jobs. Facts that set the control properties
+    to values of every type, scheduled rules beyond the cron's capacity; then ordinary traffic and the canaries. The model does
+    not describe these configurations: no panic, no hang, and the canaries answer (`impl_only`)."""
+    odd = ["soon", "90s", "", "-5", True, None, [1], {"a": 1}, -1, 0, 1.5, 10 ** 12, "1e3", "never"]
+    # (not the properties that switch the location off or lock it: the canaries ask for ordinary service afterwards)
+    props = ["!cacheTTL", "!parents", "!disabled", "!createdAt", "!verbosity"]
+    scheds = ["+1h", "* * * * *", "!2031-01-01T00:00:00Z", "0 0 1 1 *"]
+    out = []
+    for k in range(n):
+        state = rng.choice(["indexed", "linear"])
+        via = rng.choice(["sys", "sys", "http"])
+        ops = []
+        fam = k % 3
+        if fam in (0, 2):
+            for _ in range(rng.randint(1, 3)):
+                p_ = rng.choice(props[:1] * 3 + props)
+                ops.append({"op": "addFact", "id": "", "fact": {p_: rng.choice(odd)}})
+                ops.append(rng.choice([{"op": "search", "pattern": {"a": "?x"}, "inherited": False}, {"op": "getFact", "id": "f0"}, {"op": "addFact", "id": "f0", "fact": {"a": 1}}]))
+        if fam in (1, 2):
+            for j in range(rng.randint(3, 6)):
+                ops.append({"op": "addRule", "id": "s%d" % j, "rule": {"schedule": rng.choice(scheds), "action": {"code": "(1)"}}})
+            ops.append({"op": "remRule", "id": "s0"})
+            ops.append({"op": "addRule", "id": "s9", "rule": {"schedule": rng.choice(scheds), "action": {"code": "(1)"}}})
+        for o in ops:
+            o["slow"] = True
+        # (properties that switch the location off or lock it are removed again before the canaries ask for ordinary service)
+        ops += [{"op": "remFact", "id": "!." + p_[1:]} for p_ in props]
+        for o in ops:
+            o.setdefault("loc", "a")
+        ops += canaries()
+        out.append({"kind": "c13.run", "via": via, "state": state, "locs": ["a"], "ops": ops, "impl_only": True,
+                    "sysconf": {"ttl": rng.choice(["never", "never", "forever"]), "cronLimit": 3}})
+    return out
+
+
+def odd_variable_cases(rng, n):
+    """Variable names are data: a `?` followed by anything. Names made of characters that mean something to a regular expression,
+    to JSON or to a script, bound by a rule's `when` and used by its condition and by actions of both kinds (a script; an external
+    HTTP endpoint, whose code is a text into which the bindings are substituted). Absolute requirements only."""
+    names = ["?x[", "?x(", "?a)", "?*", "?+", "?x\\", "?x{2", "?[", "?x|y", "?^", "?$", "?.", "?x]", "?(?", "?x\"", "?a b", "?\u00e9", "?x?"]
+    out = []
+    for k in range(n):
+        v = rng.choice(names)
+        w = rng.choice(names + ["?y"])
+        via = rng.choice(["core", "core", "sys", "http"])
+        state = rng.choice(["indexed", "linear"])
+        acts = [{"endpoint": "http://127.0.0.1:9/none", "code": json.dumps({"saw": v, "and": [w, 1]})},
+                {"code": "(1)"},
+                {"endpoint": "http://127.0.0.1:9/none", "code": "plain text with " + v + " inside", "subvars": rng.choice([True, True, False])}]
+        rule = {"when": {"pattern": {"a": v, "b": w} if rng.random() < 0.5 else {"a": v}}, "actions": rng.sample(acts, rng.randint(1, 3))}
+        if rng.random() < 0.3:
+            rule["condition"] = {"pattern": {"k": v}}
+        if rng.random() < 0.3:
+            rule["policies"] = {"serialActions": True}
+        ops = [{"op": "addFact", "id": "kf", "fact": {"k": 1}}, {"op": "addRule", "id": "odd", "rule": rule},
+               {"op": "event", "event": {"a": rng.choice([1, "v", "[", "("]), "b": 2}, "slow": True},
+               {"op": "search", "pattern": {"k": v}, "inherited": False}, {"op": "query", "query": {"pattern": {"k": v}}}]
+        for o in ops:
+            o["loc"] = "a"
+        ops += canaries()
+        out.append({"kind": "c13.run", "via": via, "state": state, "locs": ["a"], "ops": ops, "impl_only": True})
+    return out
+
+
 def formerly_fatal(rng, n, vias=("core", "core", "core", "sys", "http")):
     return [formerly_fatal_case(rng, vias) for _ in range(n)]
 
@@ -551,7 +617,7 @@ def compare(case, impl, model, known):
         res["issues"].append((-1, "internal", "model driver gave no result: %s" % json.dumps(model)[:200]))
         return res
     iouts, mouts = impl["outs"], model["outs"]
-    impl_only = False
+    impl_only = bool(case.get("impl_only"))     # configurations the model does not describe: only the absolute requirements
     poisoned_by = None      # impl-only mode: a listed panic happened; what follows cannot be predicted without the model
     via = case.get("via", "core")
     degraded = None
